@@ -46,6 +46,7 @@ var c13Sources = []string{
 	"find all at least 1 (('a' = x) or ('b' = y)) named r",
 	"set f to transform set v to 1 set w to true return v * 2 end\nreplace all 'a' with f",
 	"set g to transform return head v + w end\nset p to pattern 'a' begin set k to matchLength return k == 1 end\nreplace all p with g",
+	"set g to pattern @/(a)(b|d)\\2?/\nfind all g maybe 'a'",
 }
 
 var c13Texts = []string{"abab dab", "aabbd abd aab", "bdab\nabba d"}
@@ -381,7 +382,10 @@ func runC13(c *Ctx) {
 	// (b) commands
 	if c.Level("commands") {
 		defs := "set p to pattern 'a' or 'ab'\nset q to pattern {in 'b', 'd' maybe r} = r\n"
-		cmds := []string{"find all p q", "find all q p 'd'", "replace all p with 'x' value", "find skip 1 maybe p q", "find all @/(a)(b|d)\\1?/", "find all at least 1 (p = x) named l"}
+		// the last two items are a definition with numbered regex groups followed by its use: the numbering
+		// restarts in every command, `set` commands included, wherever in the source they stand
+		cmds := []string{"find all p q", "find all q p 'd'", "replace all p with 'x' value", "find skip 1 maybe p q", "find all @/(a)(b|d)\\1?/", "find all at least 1 (p = x) named l",
+			"set g to pattern @/(a)(b|d)\\2?/\nfind all g maybe 'a'", "set h to pattern 'a' @/(b)(d)?\\1/\nreplace all h with 'y'"}
 		ctexts := texts("abd", 4)
 		single := make([]*libvore.Vore, len(cmds))
 		for i, cm := range cmds {
@@ -403,6 +407,17 @@ func runC13(c *Ctx) {
 			}
 		}
 		for _, sq := range seqs {
+			dup := false
+			for a := range sq {
+				for b := a + 1; b < len(sq); b++ {
+					if sq[a] == sq[b] && strings.HasPrefix(cmds[sq[a]], "set ") {
+						dup = true // a name is defined once
+					}
+				}
+			}
+			if dup {
+				continue
+			}
 			var parts []string
 			for _, i := range sq {
 				parts = append(parts, cmds[i])
